@@ -33,3 +33,6 @@ def run(ck):
     funcs.template_sizes(ck, "C08.R3")
     fresh.constructor_state(ck, "C20.R2")            # results and operands are built by the constructor: own status record, own final configuration
     funcs.route_selection(ck, "C07.R8")
+    funcs.kernels_pure(ck, "C07.R9")
+    ops.conversions(ck, "C16.R2")
+    fresh.no_hidden_state(ck, "C20.R8")                  # results depend on the documented state only (no caches / memos)
